@@ -25,8 +25,9 @@ from .irbuild import IR
 _prog = None
 SEV = {'Info': 0, 'Warning': 1, 'Error': 2}
 NFILES = 3
-CODES = ['ParseFail', 'ShadowingVariable', 'SignalAssignmentStatement']
-IDS = {'ParseFail': 'P1000', 'ShadowingVariable': 'CS0001', 'SignalAssignmentStatement': 'CS0005'}
+CODES = ['ParseFail', 'ShadowingVariable', 'SignalAssignmentStatement', 'FieldElementComparison']
+IDS = {'ParseFail': 'P1000', 'ShadowingVariable': 'CS0001', 'SignalAssignmentStatement': 'CS0005', 'FieldElementComparison': 'CS0003'}
+REAL_CATEGORY = {'ParseFail': 'Error', 'ShadowingVariable': 'Warning', 'SignalAssignmentStatement': 'Warning', 'FieldElementComparison': 'Info'}
 ALLOW_LISTS = [[], ['CS0001'], ['P1000', 'junk'], ['CS0005', 'CS0001']]
 
 
@@ -192,7 +193,7 @@ def run_task(task):
 
     # a counterexample is replayed against the real binary: prefer models that a real project can realise
     # (some user file; error level <=> parse error id, warning level <=> analysis finding id; located reports)
-    realizable = z3.And(z3.Or(*user), *[(cats[i] == disc['Error']) if codes[i] == 'ParseFail' else (cats[i] == disc['Warning']) for i in range(n)])
+    realizable = z3.And(z3.Or(*user), *[cats[i] == disc[REAL_CATEGORY[codes[i]]] for i in range(n)])
 
     def post(ex, res):
         rec = ex.notes.get('rec')
